@@ -448,6 +448,64 @@ func pqSample(r *core.Run, traces []*core.Trace) {
 	}
 }
 
+// RunTinyFillDrain: the smallest possible file (16 pages of 4 KiB), a write buffer of one page and
+// events of a few hundred bytes. Every cycle fills until the writer reports an error, drains and
+// ACKs everything; the queue is empty then and the few buffered events have to be accepted by a
+// later Flush (else StuckAfterDrain). Sizes vary with the variant so that flushes fail at different
+// stages (before / after the data pages of the flush were allocated).
+func RunTinyFillDrain(c QCfg, variant, cycles int) *core.Trace {
+	e := qenv.New(c.Name, txfile.Options{PageSize: 4096, MaxSize: 16 * 4096}, c.WriteBuffer)
+	e.Tick = c.Tick
+	if c.EnvOut != nil {
+		*c.EnvOut = e
+	}
+	tr := &core.Trace{Name: c.Name, Meta: fmt.Sprintf("%s tiny file 16x4096 wbuf=%d variant=%d cycles=%d", c.Name, c.WriteBuffer, variant, cycles)}
+	defer func() {
+		if p := recover(); p != nil {
+			e.Emit(core.Event{"ev": "Panic", "msg": fmt.Sprint(p), "stack": core.ShortStack()})
+		}
+		tr.Events = e.Events()
+	}()
+	if err := e.Open(true); err != nil {
+		return tr
+	}
+	rng := rand.New(rand.NewSource(c.Seed))
+	id := 0
+	drain := func() {
+		for round := 0; round < 400; round++ {
+			if consume(e, rng, 1+rng.Intn(12), false) == 0 {
+				break
+			}
+		}
+		if p, err := e.Q.Pending(); err == nil && p > 0 {
+			e.ACK(p)
+		}
+	}
+	for cy := 0; cy < cycles; cy++ {
+		var ferr error
+		for k := 0; k < 4000 && ferr == nil; k++ {
+			size := 300 + (37+variant*11)*(id%9) + variant*53
+			if ferr = e.Write(size); ferr != nil {
+				break
+			}
+			id++
+			ferr = e.Next()
+		}
+		e.Counters()
+		drain()
+		e.Counters()
+		if err := e.Flush(); err != nil && qenv.IsFull(err) {
+			if p, perr := e.Q.Pending(); perr == nil && p == 0 {
+				e.Emit(core.Event{"ev": "StuckAfterDrain", "msg": err.Error()})
+			}
+		}
+		drain()
+	}
+	e.Counters()
+	e.Close()
+	return tr
+}
+
 // RunFillDrain runs fill-to-error / drain cycles on a small bounded file.
 func RunFillDrain(c QCfg, cycles int) (tr *core.Trace, env *qenv.Env) {
 	rng := rand.New(rand.NewSource(c.Seed))
@@ -497,7 +555,16 @@ func RunFillDrain(c QCfg, cycles int) (tr *core.Trace, env *qenv.Env) {
 			}
 		}
 		// a later call flushes what the producer still holds in its buffer
-		e.Flush()
+		ferr := e.Flush()
+		if ferr != nil && qenv.IsFull(ferr) && c.BigPct == 0 && uint32(c.WriteBuffer) <= c.PageSize {
+			// small events, a write buffer of at most one page: what is buffered is a few pages.
+			// If the queue is empty now, all space but the page with the write position has been
+			// returned to the file and the buffered events must fit (C12: "after space is freed the
+			// buffered events are flushed by a later call")
+			if p, err := e.Q.Pending(); err == nil && p == 0 {
+				e.Emit(core.Event{"ev": "StuckAfterDrain", "msg": ferr.Error()})
+			}
+		}
 		e.Counters()
 		if rng.Intn(7) == 0 {
 			if err := e.Reopen(); err != nil {
@@ -532,6 +599,12 @@ func CheckC12(r *core.Run) {
 			MaxPages: maxes[i%len(maxes)], Chunked: i%2 == 0, BigPct: []int{10, 40, 70}[i%3]}
 		if i%4 == 2 {
 			c.PageSize, c.MaxPages = 4096, 64
+		}
+		if i%5 == 3 {
+			// the smallest file there is (64 KiB): a flush can fail after its data pages were
+			// allocated, when the commit finds no room for its own mapping / list pages
+			c.PageSize, c.MaxPages, c.BigPct = 4096, 16, 0
+			c.WriteBuffer = []uint{0, 4096}[(i/5)%2]
 		}
 		if i%3 == 1 {
 			c.WriteBuffer = 16 * 1024
@@ -569,6 +642,10 @@ func CheckC12(r *core.Run) {
 		}(c)
 	}
 	wg.Wait()
+	for v := 0; v < r.Pick(6, 24); v++ {
+		c := QCfg{Name: fmt.Sprintf("c12-tiny-%d", v), Seed: r.Seed*31 + int64(v), PageSize: 4096, MaxPages: 16, WriteBuffer: []uint{4096, 0, 4096, 2048}[v%4]}
+		traces = append(traces, RunTinyFillDrain(c, v, 8))
+	}
 	for _, t := range traces {
 		r.AddDistinct(fmt.Sprint(t.Meta))
 		r.AddEvals(int64(len(t.Events)))
